@@ -358,7 +358,7 @@ class ObjRec:
 
 class ListRec:
     """concrete prefix-free list: python list of SVs; or symbolic: length term + element array/opaque"""
-    __slots__ = ("items", "length", "elem", "arr", "sym", "farr", "cnt")
+    __slots__ = ("items", "length", "elem", "arr", "sym", "farr", "cnt", "shift")
 
     def __init__(self, items=None, length=None, elem=("any",), arr=None, sym=None):
         self.items = items          # list[SV] when concrete, else None
@@ -367,6 +367,7 @@ class ListRec:
         self.arr = arr              # z3 Array(Int -> sort) for primitive element types
         self.sym = sym
         self.farr = {}              # obj element type: field -> z3 Array(Int -> sort)
+        self.shift = 0              # obj element lists: element i is the symbolic object `sym[i + shift]`
         self.cnt = {}               # ghost counters: name -> z3 Int (number of elements satisfying a registered predicate)
 
     @property
@@ -377,6 +378,7 @@ class ListRec:
         r = ListRec(list(self.items) if self.items is not None else None, self.length, self.elem, self.arr, self.sym)
         r.farr = dict(self.farr)
         r.cnt = dict(self.cnt)
+        r.shift = self.shift
         return r
 
 
